@@ -442,6 +442,26 @@ class Interp:
                 v = self.ev(p, bn) if isinstance(old, int) and isinstance(v, int) else TOP
                 if isinstance(v, int) and e.get("w"):
                     v = wrap(v, e["w"], e.get("sg", True))
+            if e["op"] == "=" and l.get("k") == "un" and l.get("op") == "*":
+                # *dst = *src with both pointers naming abstract objects (a whole-struct copy into a fresh object): what is known below
+                # the source object becomes known below the destination object
+                r0 = strip(e["r"])
+                pt = (strip(l["e"]).get("t") or "").replace("const", "").strip()
+                rec = pt[:-1].strip() if pt.endswith("*") else None
+                is_rec = bool(rec) and self.prog is not None and (rec in self.prog.records or rec + "_st" in self.prog.records or rec.startswith("struct "))
+                if is_rec and isinstance(r0, dict) and r0.get("k") == "un" and r0.get("op") == "*":
+                    dv, sv = self.ev(p, l["e"]), self.ev(p, r0["e"])
+                    if all(type(x) is Ptr and isinstance(x.what, str) and not getattr(x, "addr", False) and x.what[:4] not in ("str:", "arr:") for x in (dv, sv)) \
+                            and dv.what != sv.what:
+                        below = {}
+                        for src_ in (self.inputs, p.env):
+                            for k2 in list(src_):
+                                if k2.startswith(sv.what + "->"):
+                                    below[k2[len(sv.what):]] = self.read(p, k2)
+                        if below:
+                            for suf, v2 in below.items():
+                                self.write(p, dv.what + suf, v2, e.get("ln"))
+                            return TOP
             if v is TOP and e["op"] == "=" and key is not None and "*" not in l.get("t", "*"):
                 # aggregate copy (a = b with struct operands): copy what is known below b, forget what was known below a
                 rk = self.canon(p, self.key_of(p, e["r"]))
